@@ -29,6 +29,8 @@ func init() {
 			c.ruleOwnFresh(ownExempt)
 			c.ruleOwnAlias("pkg/trie/inmemory", "pkg/trie/node")
 			c.min("R-OWN/alias", 6)
+			c.ruleFreshMap()
+			c.min("R-FRESHMAP", 2)
 			c.min("R-OWN", 30)
 			c.min("R-OWN/prep", 3)
 			c.min("R-OWN/snap", 4)
@@ -69,6 +71,8 @@ func init() {
 			c.rulePreorder()
 			c.min("R-PREORDER", 2)
 			c.ruleNilValue("pkg/trie/inmemory")
+			c.ruleEmptyCopy("pkg/trie/node", "pkg/trie/inmemory")
+			c.min("R-NILVALUE/copy", 5)
 			c.min("R-NILVALUE", 7)
 			c.ruleValueCarry(ownExempt)
 			c.min("R-VALUECARRY", 6)
@@ -164,6 +168,8 @@ func init() {
 			c.ruleValueCarry(ownExempt)
 			c.min("R-VALUECARRY", 6)
 			c.ruleNilValue("pkg/trie/inmemory")
+			c.ruleEmptyCopy("pkg/trie/node", "pkg/trie/inmemory")
+			c.min("R-NILVALUE/copy", 5)
 			c.min("R-NILVALUE", 7)
 			c.ruleKeyMatch([]walkerSpec{trieWalkers[2], trieWalkers[3], trieWalkers[9]})
 			c.ruleEmptyRoot()
@@ -250,7 +256,11 @@ func init() {
 			"Not decided: value-level round-trip equality; nil dereferences other than the tabled one; panics inside the Go runtime (index/slice) other than those guarded by the interval rule.",
 		"io.Reader contract; pkg/scale's byte-string decoder is covered by C12", "DESIGN.md §3 R-VARIANT, R-READFULL, R-ALLOC, R-NOPANIC; §4 C07",
 		func(c *Ctx) {
-			c.load("pkg/trie/node", "pkg/trie/triedb/codec", "pkg/scale", "pkg/trie/codec")
+			c.load("pkg/trie/node", "pkg/trie/triedb/codec", "pkg/scale", "pkg/trie/codec", "internal/primitives/core/hash")
+			c.ruleDecodeAssign("internal/primitives/core/hash")
+			c.min("R-DECODEASSIGN", 1)
+			c.ruleVariantSelect()
+			c.min("R-VARIANT/select", 6)
 			c.ruleVariant("pkg/trie/node")
 			c.ruleVariant("pkg/trie/triedb/codec")
 			c.min("R-VARIANT/table", 14)
@@ -406,6 +416,8 @@ func init() {
 			c.min("R-ORDER/batch", 3)
 			c.ruleRootRecv()
 			c.min("R-ROOTRECV", 3)
+			c.ruleVariantSelect()
+			c.min("R-VARIANT/select", 6)
 			c.ruleThresh("pkg/trie/inmemory")
 			c.min("R-THRESH", 7)
 			c.ruleValueCarry(ownExempt)
@@ -423,6 +435,8 @@ func init() {
 			c.ruleProofChild()
 			c.ruleProofValue()
 			c.min("R-PROOFVALUE", 2)
+			c.ruleEachKey()
+			c.min("R-EACHKEY", 1)
 			c.ruleNilDecode("R-NILDECODE", false, "pkg/trie/inmemory/proof")
 			c.ruleNilDecode("R-NILDECODE-trusted-db", true, "pkg/trie/inmemory")
 			c.min("R-NILDECODE", 2)
